@@ -166,6 +166,7 @@ def run(ctx):
         if r["id"] in bad:
             ctx.reject(classify(r, bad[r["id"]]), f"spec rejects record: {bad[r['id']]}", r)
     ctx.evaluations = len(recs)
+    ctx.selftest_corrupt("C01Trace", recs, bad)
     for r in recs[:2]:
         ctx.sample({"op": r["op"], "axis": r["args"]["axis"], "to": r["args"]["to"], "data_dims": r["args"]["data"]["dims"],
                     "shape": r["args"]["data"]["shape"], "out_dims": r["out"].get("dims"), "out": r["out"].get("flat", r["out"])})
